@@ -62,7 +62,7 @@ def cases():
 
 
 def make_units(tier):
-    units = []
+    units = [{'kind': 'collector', 'bound': 0, 'name': 'collector-take', 'shard': [0, 1], 'flavour': 'tcp', 'fs': None, 'inters': []}]
     n = 0
     for name, d in cases():
         for init in ('c', 's'):
@@ -101,7 +101,68 @@ def scenario_of(unit):
     return scn
 
 
+def collector_take(flavour, kind, limit, take, sent, same_read, part):
+    """The library's own 'take N' subscriber (CollectorSubscriber(limit_count=N)) against a scripted peer that has `sent`
+    elements in flight: exactly one CANCEL, nothing beyond N in the result, and a wait_for() timeout on request_response."""
+    from mc import refwire as R
+    from mc.app import P
+    from mc.solo import Solo
+    from mc.world import inject
+    from rsocket.awaitable.collector_subscriber import CollectorSubscriber
+    s = Solo('client', flavour)
+    try:
+        col = CollectorSubscriber(limit_rate=limit, limit_count=take)
+        if kind == 'stream':
+            s.sock.request_stream(P(b'q')).initial_request_n(limit).subscribe(col)
+        else:
+            s.sock.request_channel(P(b'q')).initial_request_n(limit).subscribe(col)
+        s.settle()
+        sid = 1
+        if same_read:
+            for i in range(sent):
+                inject(s.w, s.inn, R.enc_payload(sid, b'e%d' % i))
+            s.deliver('Q')
+        else:
+            for i in range(sent):
+                s.peer(R.enc_payload(sid, b'e%d' % i))
+        cancels = [f for f in s.sent_on(sid) if f.type == R.CANCEL]
+        got = [bytes(p.data or b'') for p in col.values]
+        want_n = min(take, sent)
+        ctx = 'collector/%s | %s' % (kind, 'one-read' if same_read else 'one-per-read')
+        wit = {'kind': 'collector', 'flavour': flavour, 'req': kind, 'limit': limit, 'take': take, 'sent': sent, 'same_read': same_read}
+        part.evaluations += 1
+        part.traces += 1
+        part.transitions += sent + 1
+        part.state(('collector', kind, limit, take, sent, same_read, len(cancels), len(got)))
+        part.nontriv(('collector', kind, limit, take, sent, same_read))
+        if sent >= take:
+            if len(cancels) != 1:
+                part.violate('C09.exactly-one-cancel', 'C09.exactly-one-cancel | %s | cancels=%d' % (ctx, len(cancels)),
+                             'take %d of %d elements in flight: %d CANCEL frames' % (take, sent, len(cancels)), wit)
+            if not col.is_done.is_set():
+                part.violate('C09.nothing-after-cancel', 'C09.nothing-after-cancel | %s | collector-not-done' % ctx, 'the collector did not finish after %d elements' % take, wit)
+        elif cancels:
+            part.violate('C09.exactly-one-cancel', 'C09.exactly-one-cancel | %s | premature' % ctx, 'CANCEL after %d of %d wanted elements' % (sent, take), wit)
+        if got != [b'e%d' % i for i in range(want_n)]:
+            part.violate('C09.nothing-after-cancel', 'C09.nothing-after-cancel | %s | got=%d want=%d' % (ctx, len(got), want_n),
+                         'collector holds %s after taking %d of %d' % (got, take, sent), wit)
+    finally:
+        s.teardown()
+
+
 def run_unit(unit, part):
+    if unit.get('kind') == 'collector':
+        for flavour in ('tcp', 'msg'):
+            for kind in ('stream', 'channel'):
+                for limit in (1, 2, 0x7FFFFFFF):
+                    for take in (1, 2, 3):
+                        for sent in range(0, 6):
+                            if sent > limit and limit < 0x7FFFFFFF:
+                                continue  # a legal peer does not send beyond the credit (the collector re-requests per window; keep it simple)
+                            for same_read in (False, True):
+                                collector_take(flavour, kind, limit, take, sent, same_read, part)
+        part.sample({'kind': 'collector-take'}, limit=1)
+        return
     dev_explore(scenario_of(unit), unit['bound'], part, shard=tuple(unit['shard']), det_every=200)
 
 
@@ -112,4 +173,11 @@ def scenario_from(name, params):
 
 def replay(rec):
     w = rec['witness']
+    if w.get('kind') == 'collector':
+        from mc.runner import Partial
+        p = Partial()
+        collector_take(w['flavour'], w['req'], w['limit'], w['take'], w['sent'], w['same_read'], p)
+        for v in p.violations.values():
+            print(v.rule, '|', v.detail)
+        return bool(p.violations)
     return bool(replay_witness(scenario_from(w['scenario'], w['params']), w))
